@@ -38,12 +38,12 @@ def bytePairs : Str → Option Str
 /-- common prefix `^ *(HEX+):\t(?:HEX{2} ?)+`: address and the text after the byte column
 (a blank that directly follows the last byte pair is still in front of the remainder) -/
 def linePrefix (line : Str) : Option (Str × Str) :=
-  let s := dropSpaces line
-  let (addr, rest) := spanP isHexChar s
-  if addr.isEmpty then none
-  else match rest with
-    | ':' :: '\t' :: r => (bytePairs r).map fun after => (addr, after)
-    | _ => none
+  match spanP isHexChar (dropSpaces line) with
+  | (addr, rest) =>
+    if addr.isEmpty then none
+    else match rest with
+      | ':' :: '\t' :: r => (bytePairs r).map fun after => (addr, after)
+      | _ => none
 
 /-- ` +\t([^ ]+)`: at least one blank, a tab, the mnemonic (maximal run of non-blanks) -/
 def mnemonicPart (after : Str) : Option (Str × Str) :=
@@ -51,8 +51,8 @@ def mnemonicPart (after : Str) : Option (Str × Str) :=
   | ' ' :: _ =>
     match dropSpaces after with
     | '\t' :: r =>
-      let (m, rest) := spanP (· != ' ') r
-      if m.isEmpty then none else some (m, rest)
+      match spanP (· != ' ') r with
+      | (m, rest) => if m.isEmpty then none else some (m, rest)
     | _ => none
   | _ => none
 
@@ -174,8 +174,7 @@ where
 
 /-- `LineParser(line).parse()`, reduced to "which `Instruction`, if any" -/
 def parseLine (line0 : Str) : M (Option Inst) :=
-  let line := stripData16 line0
-  match linePrefix line with
+  match linePrefix (stripData16 line0) with
   | none => pure none
   | some (addr, after) =>
     match mnemonicPart after with
